@@ -123,6 +123,14 @@ func (h *HeapEnv) set(s *State, loc, srt, val string) {
 
 // havoc the given locations (nil = everything)
 func (h *HeapEnv) havoc(s *State, mod ModSet) {
+	// whatever runs may allocate: the allocation frontier only grows
+	a0 := h.get(s, "ALLOC", "Int")
+	defer func() {
+		a1 := h.sc.freshConst("ALLOC@hv", "Int")
+		h.sc.assume(app(">=", a1, a0))
+		h.locSort["ALLOC"] = "Int"
+		s.loc["ALLOC"] = a1
+	}()
 	if mod.Top {
 		s.loc = map[string]string{}
 		s.epoch = h.newEpoch()
